@@ -352,7 +352,7 @@ func genPlan(seed uint64, n int, big bool) []op {
 }
 
 // nTorn: torn-log images derived from every killed child; stracePath: "" when strace is not installed
-const nTorn = 3
+var nTorn = 2
 
 var stracePath string
 
@@ -879,9 +879,9 @@ func main() {
 		ndl, ndlops = 80, 300
 		nho, nhoops = 40, 30
 	}
-	npw := 16
+	npw := 12
 	if r.Thorough() {
-		npw = 200
+		npw, nTorn = 200, 3
 	}
 	stracePath, _ = exec.LookPath("strace")
 	if r.Replay != "" {
@@ -919,7 +919,10 @@ func main() {
 		for i := 0; i < npw; i++ {
 			id, seed := ncrash+i, rng.U64()
 			n := 4 + rng.Intn(12)
-			pw := 1 + rng.Intn(20+9*n)
+			pw := 20 + rng.Intn(6*n+10) // start-up and migration take the first 20..25 writes
+			if rng.Chance(15) {
+				pw = 1 + rng.Intn(25)
+			}
 			jobs = append(jobs, func() caseOut { return crashCase(root, id, seed, n, false, false, pw) })
 		}
 	} else if npw > 0 {
